@@ -852,6 +852,7 @@ def main(tier, seed, replay=None):
     nviol, kf_seen, verdicts = 0, {}, {"ok": 0}
     samples = []
     model_diffs = 0
+    wrap_diffs = unexplained_diffs = 0
     drift = 0
     for cs, runs in sets:
         results = check_set(cs, runs, res)
@@ -907,7 +908,11 @@ def main(tier, seed, replay=None):
             model_diffs += 1
             if replay:
                 print("model/impl difference in run %s: %s" % (l, why[:600]))
-            if not bad and cs.regime not in ("seqwrap",) and model_diffs == 1:
+            if cs.regime == "seqwrap":
+                wrap_diffs += 1                  # the ideal model is right there, the library is not (known finding)
+            elif not bad:
+                unexplained_diffs += 1
+            if not bad and cs.regime != "seqwrap" and unexplained_diffs == 1:
                 violation(PROP, {"property": PROP, "kind": "model!=impl", "broken": "correspondence: the extracted model of the import (theories/Import.v) and builder.FromPcap disagree on an input where the implementation meets the ground truth; the theorems no longer describe this code",
                                  "run": l, "difference": why[:1500], "set": set_to_json(cs, runs), "seed": seed}, no_input=True)
                 nviol += 1
@@ -938,7 +943,8 @@ def main(tier, seed, replay=None):
         "distinct_nontrivial": len({(cs.name, l) for cs, runs in sets for l, _, _ in runs if len(cs.packets) >= 4}),
         "rule": "seeded capture sets: 1-9 conversations (TCP handshake-complete, segmentation 1..1400 bytes, duplicates / coalesced / partial retransmissions, reordering by <=3 positions inside a direction run, FIN/RST/none; UDP both directions, zero-length datagrams, 4-tuple reuse after the timeout, colliding hash buckets; IPv4 and IPv6), merged by timestamp (ties included), cut into 1-5 files (contiguous or per-flow overlapping), imported one-shot and in batches (restart of the Builder between imports); every run: visible streams = ground truth (exactly one stream per conversation, endpoints, protocol, packets with directions, payload runs) and = extracted model after every import",
         "regimes": regimes, "verdicts": verdicts, "packets_total": sum(len(cs.packets) for cs, _ in sets),
-        "model_impl_differences": model_diffs, "internal_drift": {"snapshot lists differing (not an alarm)": drift},
+        "model_impl_differences": model_diffs, "model_impl_differences_in_seqwrap_regime": wrap_diffs,
+        "model_impl_differences_unexplained": unexplained_diffs, "internal_drift": {"snapshot lists differing (not an alarm)": drift},
         "known_findings_seen": {k: len(v) for k, v in kf_seen.items()}, "fixed_findings": fixed,
         "go_seconds": round(dt_go, 1), "model_seconds": round(dt_model, 1), "coq_seconds": round(proof.seconds, 1),
         "samples": samples, "disagreements": nviol,
